@@ -56,7 +56,7 @@ def floors(tier):
         "comparisons": {"local-minimum": 60, "fixed-exact": 30, "within-limits": 30, "backends-agree": 40, "iterative-fixed-point": 15},
         "ops": ["do_fit"],
         "reach": ["%s:%s" % a for a in ANCHORS],
-        "strata": ["xy", "indexed", "hist", "unbinned", "x-source", "model-relative-source", "iterative", "nonlinear", "fixed", "limited", "active-limit"],
+        "strata": ["xy", "indexed", "hist", "unbinned", "x-source", "model-relative-source", "iterative", "nonlinear", "fixed", "limited", "active-limit", "flat-start-correlated-x"],
         "distinct_nontrivial": 40,
     }
 
@@ -89,7 +89,7 @@ def gen_case(rng, tier, idx, shard, nshards):
                 setup.append(["add_error", dict({"err": float(np.round(rng.uniform(0.03, 0.1), 4)), "relative": True, "reference": "model", "corr": float(rng.choice([0.0, 0.0, 0.3])), "name": "e1"}, **({"axis": "y"} if ftype == "xy" else {}))])
             elif r < 0.6 and ftype == "xy":
                 # declared on the data or on the model (x_model = x_data: the same numbers, but kept by another container)
-                setup.append(["add_error", {"axis": "x", "err": float(np.round(rng.uniform(0.03, 0.12), 4)), "relative": False, "reference": str(rng.choice(["data", "model"])), "corr": 0.0, "name": "e1"}])
+                setup.append(["add_error", {"axis": "x", "err": float(np.round(rng.uniform(0.03, 0.12), 4)), "relative": False, "reference": str(rng.choice(["data", "model"])), "corr": float(rng.choice([0.0, 0.0, 0.6])), "name": "e1"}])
             elif r < 0.75:
                 setup.append(gen.gen_source(rng, npts, ftype, "e1", yscale=ys * 0.4, force={"axis": "y", "reference": "data", "kind": "matrix", "relative": False}))
     spec["dea"] = dea
@@ -126,7 +126,18 @@ def gen_case(rng, tier, idx, shard, nshards):
     for nm, (lo, hi) in limited.items():
         if nm in start:
             start[nm] = float(np.clip(start[nm], lo + 1e-3 * (hi - lo), hi - 1e-3 * (hi - lo)))
-    return {"property": "C06", "spec": spec, "setup": setup, "fixed": fixed, "limited": limited, "start": start}
+    flat = False
+    fam_ = spec["model"]["family"]
+    if spec["type"] == "xy" and fam_ in ("exponential", "powerlaw", "logistic") and any(gen.norm_axis(o[1].get("axis")) == "x" and o[1].get("corr") for o in setup) and rng.random() < 0.6:
+        # start with zero amplitude: the model is flat in x there, so the projected x uncertainties (and their correlations) vanish at the
+        # start values although they do not at the optimum
+        from vlib.models import UNIT_PARAMS
+
+        amp = UNIT_PARAMS[fam_][0]
+        if amp in start and amp not in limited:
+            start[amp] = 0.0
+            flat = True
+    return {"property": "C06", "spec": spec, "setup": setup, "fixed": fixed, "limited": limited, "start": start, "flat_start": flat}
 
 
 # ------------------------------------------------------------------ reference objective
@@ -205,6 +216,8 @@ def run_case(ctx, case):
     ctx.stratum(spec.get("dea", "nonlinear"))
     names = list(Model.from_spec(spec["model"]).pnames)
     fixed, limited = case["fixed"], {k: tuple(v) for k, v in case["limited"].items()}
+    if case.get("flat_start"):
+        ctx.stratum("flat-start-correlated-x")
     if fixed:
         ctx.stratum("fixed")
     if limited:
